@@ -26,7 +26,21 @@ def B(b) -> str:
     b = bytes(b)
     if not b:
         return '(@nil N)'
+    if len(b) > 256:    # very long number literals overflow coqc's stack
+        return '(' + ' ++ '.join(B(b[i:i + 256]) for i in range(0, len(b), 256)) + ')'
     return f'(Bx {len(b)} 0x{b.hex()})'
+
+
+def thin(ctx, stream, cap_quick: int, keep: int = 150):
+    """a seeded sample of a large de-duplicated stream (the first `keep`
+    hand-picked inputs always stay): at most cap_quick inputs in the quick
+    tier, four times as many in the thorough tier"""
+    stream = list(dict.fromkeys(stream))
+    cap = cap_quick if ctx.quick else 4 * cap_quick
+    if len(stream) <= cap:
+        return stream
+    head, tail = stream[:keep], stream[keep:]
+    return head + ctx.rng.sample(tail, cap - keep)
 
 
 # ------------------------------------------------------------------ impl side
@@ -184,6 +198,27 @@ def monitor_reserialise(ctx, cls, buf: bytes, res, conts) -> None:
                 return
 
 
+def monitor_print_parse(ctx, v: bytes) -> None:
+    """a value serialised by QuotedString / AString / String.build parses back"""
+    from pymap.parsing.primitives import QuotedString, LiteralString, String
+    from pymap.parsing.specials import AString
+    plain = b'\r' not in v and b'\n' not in v
+    for cls, obj in ((QuotedString, QuotedString(v)), (AString, AString(v)), (String, String.build(v))):
+        printed = bytes(obj)
+        if isinstance(obj, LiteralString):
+            k = printed.index(b'}\r\n') + 3
+            res = impl_parse(cls, printed[:k], conts=[printed[k:] + b' x'])
+        elif not plain:
+            continue      # a quoted string cannot carry CR / LF
+        else:
+            res = impl_parse(cls, printed + b' x')
+        if res[0] != 'ok' or res[1].value != v or res[2] != b' x':
+            ctx.failure('string_roundtrip',
+                        f'{type(obj).__name__}({v[:30]!r}) prints {printed[:60]!r}, which parses back '
+                        f'to {res[1].value[:30] if res[0] == "ok" else res!r}',
+                        {'class': cls.__name__, 'value': v.hex()}, {'kind': 'print_parse'})
+
+
 def monitor_spelling(ctx, v: bytes) -> int:
     from pymap.parsing.specials import AString
     n = 0
@@ -203,10 +238,13 @@ def monitor_spelling(ctx, v: bytes) -> int:
                 n += 1
                 if res[0] != 'ok' or res[1].value != v or res[2] != tail or res[3]:
                     got = res[1].value if res[0] == 'ok' else res
+                    obs = {'kind': 'spelling_value', 'spelling': kind}
+                    if kind == 'atom' and b'}' in v and res[0] == 'fail':
+                        obs = {'kind': 'atom_rbrace'}     # known finding C18-F3
                     ctx.failure('astring_spelling',
                                 f'{kind} spelling of {v[:30]!r} before {tail!r} parsed to {got!r}',
                                 {'value': v.hex(), 'kind': kind, 'lead': lead.hex(), 'tail': tail.hex()},
-                                {'kind': 'spelling_value', 'spelling': kind})
+                                obs)
     return n
 
 
@@ -218,7 +256,7 @@ def section(ctx) -> None:
     rng = ctx.rng
     quick = ctx.quick
     vals_ = INTERESTING if quick else None
-    SH = dict(shard=600)
+    SH = dict(shard=1500)
 
     # --- character classes: all 256 bytes
     cases = []
@@ -236,7 +274,7 @@ def section(ctx) -> None:
         + sweep([b'ab1 x', b' NIL)', b'12 3', b'nIl', b'007'], vals_, not quick) \
         + [mutate(rng, rng.choice([b' atom rest', b'NIL ', b'123 ', b'  ab]c']), b'aN1 ]"{\\')
            for _ in range(ctx.scale(300, 5000))]
-    stream = list(dict.fromkeys(stream))
+    stream = thin(ctx, stream, 1200)
     ca, cn, cm = [], [], []
     for buf in stream:
         ra = impl_parse(Atom, buf)
@@ -262,7 +300,7 @@ def section(ctx) -> None:
            for _ in range(ctx.scale(300, 6000))
            for lead in (rng.choice([b'', b' ', b'   ']),)
            for tail in (rng.choice([b'', b' ', b' x', b')', b'\r\n', b'"', b'"x"']),)]
-    stream = list(dict.fromkeys(stream))
+    stream = thin(ctx, stream, 2500)
     cq = []
     for buf in stream:
         r = impl_parse(QuotedString, buf)
@@ -307,6 +345,7 @@ def section(ctx) -> None:
         stream.append((buf, tuple(conts), ps))
     big = b'x' * 4096
     stream += [(b'{4096+}\r\n' + big + b' y', (), paramsets[0]), (b'{4096}\r\n', (big + b'z',), paramsets[0])]
+    stream = thin(ctx, stream, 1800, keep=450)
     seen = set()
     cl, cs_, cas, keep = [], [], [], []
     for buf, conts, ps in stream:
@@ -342,7 +381,7 @@ def section(ctx) -> None:
     vals = list(dict.fromkeys(
         small_strings(b'a"\\ ]', 3) + [bytes([c]) for c in range(256)]
         + [b'a' * 63, b'a' * 64, b'a\nb', b'a\rb', b'a\x00b', b'x' * 300]
-        + [gen_value(rng) for _ in range(ctx.scale(300, 5000))]))
+        + [gen_value(rng) for _ in range(ctx.scale(300, 2500))]))
     cp, cpl = [], []
     for v in vals:
         cp.append(T.pair(B(v), B(bytes(QuotedString(v))), B(bytes(AString(v)))))
@@ -351,6 +390,7 @@ def section(ctx) -> None:
             cpl.append(T.pair(T.boolean(binary), B(v), B(bytes(LiteralString(v, binary))),
                               T.boolean(isinstance(built, QuotedString)), B(bytes(built))))
         ctx.count(('print', v))
+        monitor_print_parse(ctx, v)
     for i in ctx.run_cases('string_print', HEADER, 'bytes * bytes * bytes', cp, 'chk_print_q', **SH)[:5]:
         ctx.disagreement('string_print', {'value': vals[i].hex()})
     for i in ctx.run_cases('literal_print', HEADER, 'bool * bytes * bytes * bool * bytes', cpl,
@@ -359,7 +399,7 @@ def section(ctx) -> None:
 
     # --- spelling monitor on the parser: all applicable spellings agree
     n = 0
-    for v in vals[:ctx.scale(400, 4000)]:
+    for v in vals[:ctx.scale(400, 2500)] + [b'y' * 4096, b'"' * 2048]:
         n += monitor_spelling(ctx, v)
     ctx.extra['strings'] = {'spelling_monitor_parses': n}
 
